@@ -342,10 +342,12 @@ def len_after_shrink_sites(F, adt, desync, readers, confined_prefix):
     import inline
     out = []
     nsh = 0
+    field_sh, field_ob = {}, {}          # (type, field path of self) -> calls: a list kept in a field outlives the call
     for fn0 in F.fns:
         if fn0.path.startswith(confined_prefix) or fn0.kind == 'Closure' and fn0.path.startswith(confined_prefix):
             continue
-        if not any((t['func'].get('path') or '') in desync for _, t in fn0.calls()):
+        names = {(t['func'].get('path') or '') for _, t in fn0.calls()}
+        if not (names & set(desync)) and not (fn0.self_adt and names & set(readers)):
             continue
         fn = inline.inlined(F, fn0, depth=2, stop=_STOP_SV)
         sh, ob = [], []
@@ -360,6 +362,21 @@ def len_after_shrink_sites(F, adt, desync, readers, confined_prefix):
             for bj, r2, cp2, t2 in ob:
                 if r is not None and r == r2 and bi != bj and fn.cfg.can_reach(bi, bj):
                     out.append((fn0, cp, t, cp2, t2))
+        if fn0.self_adt and fn0.kind == 'AssocFn' and fn0.j.get('inputs') and str(fn0.j['inputs'][0].get('s', '')).startswith('&mut'):
+            for bi, r, cp, t in sh:
+                if r is not None and r[0] == 1 and len(r) > 1:
+                    field_sh.setdefault((fn0.self_adt, r[1:]), []).append((fn0, cp, t))
+        if fn0.self_adt and fn0.kind == 'AssocFn':
+            for bj, r2, cp2, t2 in ob:
+                if r2 is not None and r2[0] == 1 and len(r2) > 1:
+                    field_ob.setdefault((fn0.self_adt, r2[1:]), []).append((fn0, cp2, t2))
+    seen = {(fn.path, t2.get('ln')) for fn, _, _, _, t2 in out}
+    for key, shs in field_sh.items():
+        for fn_o, cp2, t2 in field_ob.get(key, []):
+            if (fn_o.path, t2.get('ln')) in seen:
+                continue
+            # the shrunk list stays in self.<field>: whichever method is called next observes the stale count
+            out.append((fn_o, shs[0][1], shs[0][2], cp2, t2))
     return out, nsh
 
 
@@ -391,4 +408,5 @@ def r6_len_after_shrink(ctx, facts):
     s2, _ = len_after_shrink_sites(fx, 'c10::CompactVec', d2, r2, 'c10::CompactVec')
     names = {fn.path for fn, *_ in s2}
     ctx.control('C10-R6', 'c10::len_after_retain' in names, 'len() after a count-desynchronising retain is flagged')
+    ctx.control('C10-R6', 'c10::Carry::step' in names, 'a list kept in a field: len() in a later call after a count-desynchronising retain is flagged')
     ctx.control('C10-R6', 'c10::len_before_retain' not in names, 'negative control: len() before the retain, and a count read that only sizes an allocation, are accepted')
